@@ -52,6 +52,7 @@ class Ctx:
         self.efflog = []       # for the C06 oracle only (not compared with the model)
         self.live = set()      # schedulers past their enter and not yet exited
         self.entering = set()  # schedulers inside their own enter phase (programs with "enter_effects" only)
+        self.exiting = set()   # DoDoers inside their own exit (their doers' exit contexts may call back)
         self.skew = []         # (kind, id, own view of tyme, Doist's tyme) where they differ
 
     def ev(self, kind, i, own=None):
@@ -68,7 +69,8 @@ class Ctx:
 
     def effects(self, caller, es):
         for e in es:
-            if e[1] not in self.live and not (self.prog.get("enter_effects") and e[1] in self.entering):
+            if (e[1] not in self.live and e[1] not in self.exiting
+                    and not (self.prog.get("enter_effects") and e[1] in self.entering)):
                 continue                # target scheduler not running: outside the program class
             target = self.objs[e[1]]
             lst = [self.objs[j] for j in e[2]]
@@ -132,10 +134,12 @@ def _build(ctx, i):
             def exit(self, deeds=None):
                 if deeds is None:
                     ctx.live.discard(i)
+                    ctx.exiting.add(i)
                 try:
                     super().exit(deeds=deeds)
                 finally:          # a child's cease/exit context may raise out of the DoDoer's exit
                     if deeds is None:
+                        ctx.exiting.discard(i)
                         ctx.ev("Exit", i)
         for k in d["kids"]:
             if k not in ctx.objs:
@@ -152,8 +156,12 @@ def _build(ctx, i):
 
     hookexc = d.get("hookexc", "script")
 
+    hookeff = d.get("hookeffect")       # {"hook": "cease"|"exit", "eff": [...]}: that context calls back into a scheduler
+
     def hook(name):
         ctx.ev(name.capitalize(), i)
+        if hookeff and hookeff["hook"] == name:
+            ctx.effects(i, [hookeff["eff"]])
         if hookraise == name:
             if hookexc == "kbd":
                 raise KeyboardInterrupt()
@@ -505,7 +513,8 @@ EK = {"Enter", "Recur", "Clean", "Cease", "Abort", "Exit", "ExtRet", "RemRet", "
 def outside_model(prog):
     """Programs the Coq model does not express (decided by the direct oracle only): a doer whose
     clean/cease/abort/exit context itself raises."""
-    return (any(d.get("hookraise") for d in prog["defs"].values()) or bool(prog.get("enter_effects")) or bool(prog.get("catch_ext"))
+    return (any(d.get("hookraise") or d.get("hookeffect") for d in prog["defs"].values()) or bool(prog.get("enter_effects"))
+            or bool(prog.get("catch_ext"))
             or any(st["out"][0] == "s" for d in prog["defs"].values() if d["kind"] != "nest" for st in d["script"])
             or bool(prog.get("manual") and (prog["manual"]["then"] != "exit" or prog["manual"].get("jump"))))
 
@@ -1229,3 +1238,31 @@ def jump_oracle(case, obs):
     if fl(obs["tyme"]) != t:
         return f"final tyme {fl(obs['tyme'])}, the cycles and the jump give {t}"
     return None
+
+
+def gen_hook_effects(rng, n):
+    """A doer whose own cease/exit context calls remove() on the scheduler it runs under -- naming nothing, a sibling
+    that has already completed, or itself: a no-op there -- while that scheduler force-closes its doers at the limit
+    (outside the Coq model, whose lifecycle contexts have no effects: oracle only)."""
+    out = []
+    Y = lambda: {"es": [], "out": ["y", None]}
+    while len(out) < n:
+        p = gen_static(rng, n_leaves=rng.randint(4, 7), nest_depth=rng.choice([0, 1, 1]), faults=False, tocks="dyadic", limit_p=1.0)
+        targets = [(0, list(p["doers"]))] + [(int(i), list(d["kids"])) for i, d in p["defs"].items() if d["kind"] == "nest"]
+        leafy = lambda ms: [m for m in ms if p["defs"][str(m)]["kind"] != "nest"]
+        good = [x for x in targets if len(leafy(x[1])) >= 3]
+        nests = [x for x in good if x[0] != 0]
+        if not good:
+            continue
+        t, members = rng.choice(nests) if nests and rng.random() < 0.75 else rng.choice(good)
+        leaves = leafy(members)
+        c = rng.choice(leaves[1:])                       # not the first entered: others are closed after it
+        done_early = rng.choice([m for m in leaves if m != c])
+        for m in leaves:
+            p["defs"][str(m)]["script"] = [Y() for _ in range(10)]
+        p["defs"][str(done_early)]["script"] = [Y(), {"es": [], "out": ["r", "true"]}]
+        p["limit"] = 3 * p["tock"]
+        arg = rng.choice([[], [done_early], [c]])
+        p["defs"][str(c)]["hookeffect"] = {"hook": rng.choice(["cease", "exit"]), "eff": ["rem", t, arg]}
+        out.append(p)
+    return out
